@@ -31,11 +31,11 @@ var serverFaults = []string{
 	"report-own-election-id",
 }
 
-// strictFaults: every designated test in which the fault manifested must fail (not just one of them),
-// because each of those tests asks for exactly the data the fault withholds / checks exactly the verdict or
-// the session rule the fault breaks. (For the remaining faults the wrapper's "fired" counter also moves in
-// tests that do not depend on the withheld behaviour, so one failing designated test is required.)
-var strictFaults = map[string]bool{"report-own-election-id": true, "allow-delete-referenced": true, "ack-invalid-entries": true, "accept-replace-of-missing": true, "accept-disallowed-forward-reference": true, "fail-mpls": true, "fail-ipv6": true, "fail-delete": true, "fail-cross-instance-reference": true, "accept-multi-field-messages": true, "accept-zero-election-id": true, "accept-unsupported-params": true, "accept-mismatched-params": true, "leak-results-to-other-clients": true, "flush-on-new-primary": true, "fail-entries-with-metadata": true, "get-omits-nh": true, "get-omits-nhg": true, "get-omits-ipv4": true, "get-omits-ipv6": true, "get-mislabels-ni": true}
+// Every designated test in which the fault manifested must fail (not just one of them): with the
+// designations below each such test checks exactly the data, verdict or session rule the fault breaks
+// (on the unchanged tree: 0 passes in 42 000 runs with every fault judged this way). lenientFaults would
+// list faults for which one failing designated test is enough; there is none at present.
+var lenientFaults = map[string]bool{}
 
 // designated returns the predicate selecting the tests written for the requirement a fault breaks.
 func designated(fault string) func(name string) bool {
